@@ -147,8 +147,8 @@ def alphabet(seed_):
     # the extremes of the version range (tables indexed by the version constant: M1 = -3 ... 40)
     for v in (38, 39, 40):
         add(f'big_v{v}', 'make', 'TEST', version=v)
-    add('sparse_v12a', 'make', 'A', version=12)
-    add('sparse_v12b', 'make', 'B', version=12, error='M')
+    add('sparse_v12a', 'make', 'A', version=6)
+    add('sparse_v12b', 'make', 'B', version=6, error='M')
     add('sparse_v22', 'make', 'C', version=22)
     add('big_m1_v', 'make', '123', version='M1')
     add('big_m2_v', 'make', '123', version='M2')
@@ -650,11 +650,19 @@ def run_c15(rep, tier):
     names = sorted(A)
     # (c) sequential histories: all ordered pairs (thorough: plus triples sample), each in a freshly forked process
     small = [n for n in names if n not in ('v20', 'v20b', 'v10', 'v10b') and not n.startswith('big_') and not n.startswith('sparse_') and not n.startswith('drop')]
+    # quick tier: all ordered pairs of the core alphabet; the later additions (value-class variants of one call) are paired with
+    # themselves, with their neighbours (same prefix) and with 10 seeded partners each
+    VARIANT = ('eci_', 'svg_alpha', 'png_alpha', 'pdf_alpha', 'eps_alpha', 'ppm_alpha', 'svg_scale', 'png_dark_alpha', 'png_light_alpha', 'png_both', 'svg_dark_none')
+    core = [n for n in small if not n.startswith(VARIANT)]
+    partners = {n: set(r.sample(core, 10)) for n in small if n.startswith(VARIANT)}
     tasks = []
     for a in names:
         for b in names:
-            if tier == 'quick' and (a not in small or b not in small) and (a[:3] != b[:3]):
-                continue
+            if tier == 'quick':
+                if (a not in small or b not in small) and (a[:3] != b[:3]):
+                    continue
+                if (a in partners or b in partners) and a[:6] != b[:6] and b not in partners.get(a, ()) and a not in partners.get(b, ()):
+                    continue
             tasks.append(([a, b], A, ref, a == b or r.random() < 0.05))
     for _ in range(60 if tier == 'quick' else 2000):
         k = r.randint(3, 6)
